@@ -480,7 +480,84 @@ func checkC07(r *Result) {
 			}
 		}
 		r.check(n >= 2 && rotRel != nil, "ROTATE-GUARD", "(x/oracle/keeper.Keeper).RotateQueries # advances the sequencer", P.Pos(rq.Pos()), fmt.Sprintf("%d sequencer writes", n))
-		_ = tm
+		// the entry whose round is opened is the entry the stored sequencer names (GetCurrentQueryInCycleList reads the
+		// sequencer, clamping an out-of-range value to 0): the index used is either a value this call stored with Set, or
+		// Next()+1 -- which is what Next left in the store -- on a path where that is known to be inside the list
+		var next ssa.Value
+		for _, cs := range P.CallSitesIn(rq) {
+			if cs.Desc() == "coll:x/oracle/keeper.Keeper.CyclelistSequencer.Next" {
+				if v, ok := cs.Instr.(ssa.Value); ok {
+					next = v
+				}
+			}
+		}
+		isNext := func(t *Term) bool { return t.Op == "ext:0" && len(t.Args) == 1 && t.Args[0].V == next }
+		sameIdx := func(a, b ssa.Value) bool {
+			if a == b {
+				return true
+			}
+			ca, ok1 := a.(*ssa.Const)
+			cb, ok2 := b.(*ssa.Const)
+			return ok1 && ok2 && ca.Value != nil && cb.Value != nil && ca.Value.ExactString() == cb.Value.ExactString()
+		}
+		coherent := func(idx ssa.Value, at ssa.Instruction, from, to *ssa.BasicBlock) (bool, string) {
+			pc := AnalyzePaths(rq, []Atom{
+				{Name: "stored", Event: func(in ssa.Instruction) (bool, int8) {
+					if c, ok := in.(ssa.CallInstruction); ok {
+						if cs := P.siteOf(c); cs != nil && cs.Desc() == "coll:x/oracle/keeper.Keeper.CyclelistSequencer.Set" && sameIdx(Arg(c, 1), idx) {
+							return true, T
+						}
+					}
+					return false, U
+				}},
+				{Name: "atEnd", Stable: true, Cond: func(rel *Term) (bool, bool) {
+					// len-1 <= n, i.e. n is the last index (or beyond it)
+					if rel.Op == "<=" && len(rel.Args) == 2 && isNext(rel.Args[1]) && rel.Args[0].Contains("call:builtin:len") && rel.Args[0].Contains("const:1") {
+						return true, true
+					}
+					return false, false
+				}},
+			})
+			t := tm.Of(idx)
+			nextPlus1 := t.Op == "+" && len(t.Args) == 2 && ((isNext(t.Args[0]) && t.Args[1].Op == "const:1") || (isNext(t.Args[1]) && t.Args[0].Op == "const:1"))
+			phi := func(v map[string]bool) bool { return v["stored"] || (nextPlus1 && !v["atEnd"]) }
+			var bad []string
+			if from != nil {
+				bad = pc.RequireOnEdge(from, to, phi)
+			} else {
+				bad = pc.Require(at, phi)
+			}
+			return len(bad) == 0, fmt.Sprintf("index %s under %v", t.Brief(), bad)
+		}
+		nIdx := 0
+		for _, b := range rq.Blocks {
+			for _, in := range b.Instrs {
+				var idx ssa.Value
+				var base ssa.Value
+				switch x := in.(type) {
+				case *ssa.IndexAddr:
+					idx, base = x.Index, x.X
+				case *ssa.Index:
+					idx, base = x.Index, x.X
+				}
+				if idx == nil || !tm.Of(base).Has("call:(x/oracle/keeper.Keeper).GetCyclelist") {
+					continue
+				}
+				nIdx++
+				ok, det := true, ""
+				if ph, isPhi := idx.(*ssa.Phi); isPhi {
+					for i, e := range ph.Edges {
+						if o, d := coherent(e, nil, ph.Block().Preds[i], ph.Block()); !o {
+							ok, det = false, d
+						}
+					}
+				} else {
+					ok, det = coherent(idx, in, nil, nil)
+				}
+				r.check(ok, "ROTATE-GUARD", "(x/oracle/keeper.Keeper).RotateQueries # the entry whose round is opened is the one the stored sequencer names", P.Pos(in.Pos()), det)
+			}
+		}
+		r.check(nIdx >= 1 && next != nil, "ROTATE-GUARD", "(x/oracle/keeper.Keeper).RotateQueries # reads of the cycle list to decide", P.Pos(rq.Pos()), fmt.Sprint(nIdx))
 	}
 	// ---- WINDOW
 	dom := []int{0, 1, 2, 3}
